@@ -679,7 +679,7 @@ def check_re(case, rec):
 
 def check_re_scalar(op, okey, toks, base, nontrivial, rec):
     fn = op["op"]
-    for via, s in (("scalar_str", toks[0]), ("scalar_np", np.str_(toks[0]))):
+    for via, s in (("scalar_str", toks[0]), ("scalar_np", np.str_(toks[0]))) + ((("scalar_none", None),) if toks[0] == "" else ()):
         one = {"part": "re", "toks": toks, "ops": [dict(op, via=["module", "scalar"])]}
         rec.case((("str", tuple(toks)), okey, via), nontrivial)
         rec.trans()
